@@ -51,6 +51,19 @@ func c05GenValid(w *World, pr *Proto, p *Peer) (model.DatagramType, string) {
 		data := w.GenData(info)
 		cmd.SetDataForFunction(fn, data)
 		if !info.IsList {
+			// filters make no sense for a function that is not a list - a peer may send them anyway
+			switch w.T.Choose(6, "filter-on-non-list") {
+			case 0:
+				cmd.Function = util.Ptr(fn)
+				cmd.Filter = []model.FilterType{{CmdControl: &model.CmdControlType{Delete: &model.ElementTagType{}}}}
+				w.Probe("c05-delete-filter-on-non-list-function")
+			case 1:
+				cmd.Function = util.Ptr(fn)
+				cmd.Filter = []model.FilterType{*model.NewFilterTypePartial()}
+			case 2:
+				cmd.Function = util.Ptr(fn)
+				cmd.Filter = []model.FilterType{{CmdControl: &model.CmdControlType{Delete: &model.ElementTagType{}}}, *model.NewFilterTypePartial()}
+			}
 			return cmd
 		}
 		ids := []uint{uint(w.T.Choose(3, "sel-id")), 0, 0}
